@@ -18,10 +18,11 @@ RULE = ("stack plans of depth 1..N over {plain function, running generator, runn
 ASSUMPTIONS = ["truth = f_back walk from the caller, continuing through greenlet parents, equal to the shadow call log"]
 MIN_NONTRIVIAL = {"quick": 20000, "thorough": 400000}
 REQUIRED_COUNTERS = {"plans_with_greenlets": {"quick": 20, "thorough": 200},
+                     "plans_with_frameless_ancestor_greenlets": {"quick": 20, "thorough": 200},
                      "extract_until_frame_limits": {"quick": 500, "thorough": 5000},
                      "slices_checked": {"quick": 20000, "thorough": 400000}}
 SHARD_TIMEOUT = {"quick": 400, "thorough": 5400}
-EXHAUSTIVE = {"quick": True, "thorough": True}
+EXHAUSTIVE = {"quick": False, "thorough": False}
 
 
 def plan(tier, seed):
@@ -29,7 +30,7 @@ def plan(tier, seed):
     maxd = 4 if tier == "quick" else 6
     parts = 8 if tier == "quick" else 12
     for p in range(parts):
-        shards.append({"interp": "3.12", "alphabet": "fgcG", "max_depth": maxd, "part": p, "parts": parts,
+        shards.append({"interp": "3.12", "alphabet": "fgcGUX", "max_depth": maxd, "part": p, "parts": parts,
                        "budget_s": 45 if tier == "quick" else 2400, "seed": seed})
     for interp in ("3.11", "3.10", "3.9"):
         for p in range(2 if tier == "quick" else 4):
@@ -160,11 +161,22 @@ def worker(spec):
                 c.send(None)
             except StopIteration as ex:
                 return ex.value
-        if kind == "G":
+        if kind in ("G", "U", "X"):
             def body():
                 state["calllog"].append(sys._getframe(0))
                 return lvl(k + 1, plan_[1:])
-            gr = greenlet.greenlet(body)
+            if kind == "G":
+                gr = greenlet.greenlet(body)
+            elif kind == "U":
+                # the new greenlet's parent is a greenlet that was never started: it has no frames,
+                # and an exception would pass straight through it to *its* parent
+                u = greenlet.greenlet(lambda *a: None)
+                gr = greenlet.greenlet(body, parent=u)
+            else:
+                # ... or one that is already dead
+                d = greenlet.greenlet(lambda *a: None)
+                d.switch()
+                gr = greenlet.greenlet(body, parent=d)
             return gr.switch()
         raise AssertionError(kind)
 
@@ -193,8 +205,10 @@ def worker(spec):
         if "exc" in box:
             raise box["exc"]
         res.count("plans")
-        if "G" in p:
+        if "G" in p or "U" in p or "X" in p:
             res.count("plans_with_greenlets")
+        if "U" in p or "X" in p:
+            res.count("plans_with_frameless_ancestor_greenlets")
         if len(res.samples) < 2 and len(p) >= 3:
             res.sample({"plan": p, "stack_depth": box.get("n")})
     return res
